@@ -42,6 +42,10 @@ func (c *c11Case) CrashWhere() string {
 	switch c.Part {
 	case "funcs":
 		return "funcs/" + c.Pos
+	case "depth":
+		return "depth/" + c.Pos
+	case "ctor":
+		return "ctor/" + c.Pos
 	case "types":
 		return "types/" + c.Pos
 	case "graph":
@@ -323,6 +327,65 @@ func (c *c11Case) Run(ctx *core.Ctx) {
 		ctx.Eval(1)
 		err := vuego.NewFS(files.FS()).Load(page).Fill(map[string]any{"two": []int{1, 2}, "h": "<em>hi</em>"}).Render(bg, &buf)
 		ctx.Outcome(fmt.Sprint(err != nil))
+	case "ctor":
+		// every ordered selection of <=3 construction options, then one render of each kind
+		files := Files{"page.vuego": `<p>{{ n }}</p><x-b></x-b>`, "components/XB.vuego": `<b>b</b>`, "theme.yml": "n: 1\n"}
+		optByName := map[string]func() vuego.LoadOption{
+			"fs":         func() vuego.LoadOption { return vuego.WithFS(files.FS()) },
+			"nilfs":      func() vuego.LoadOption { return vuego.WithFS(nil) },
+			"components": func() vuego.LoadOption { return vuego.WithComponents() },
+			"less":       func() vuego.LoadOption { return vuego.WithLessProcessor() },
+			"funcs":      func() vuego.LoadOption { return vuego.WithFuncs(vuego.FuncMap{"f": func(s string) string { return s }}) },
+			"nilfuncs":   func() vuego.LoadOption { return vuego.WithFuncs(nil) },
+			"proc":       func() vuego.LoadOption { return vuego.WithProcessor(&c12Proc{failAt: -1}) },
+		}
+		var opts []vuego.LoadOption
+		for _, n := range c.A {
+			opts = append(opts, optByName[n]())
+		}
+		ctx.Eval(3)
+		var t vuego.Template
+		switch c.Pos {
+		case "New":
+			t = vuego.New(opts...)
+		case "NewFS":
+			t = vuego.NewFS(files.FS(), opts...)
+		case "NewFS-nil":
+			t = vuego.NewFS(nil, opts...)
+		}
+		_ = t.Fill(map[string]any{"n": 2}).RenderString(bg, &buf, `<i>{{ n }}</i><x-b></x-b>`)
+		_ = t.Load("page.vuego").Fill(map[string]any{"n": 2}).Render(bg, &buf)
+		_ = t.New().RenderFile(bg, &buf, "missing.vuego")
+	case "depth":
+		// N elements nested in one another (tables of precomputed indentation, stacks of open
+		// elements and recursion depth all have their limits somewhere)
+		var n int
+		fmt.Sscanf(c.Val, "%d", &n)
+		open, close := "", ""
+		for i := 0; i < n; i++ {
+			switch c.Pos {
+			case "div":
+				open, close = open+"<div>", "</div>"+close
+			case "mixed": // an inline sibling at every level
+				open, close = open+"<div><i>a</i>", "</div>"+close
+			case "inline":
+				open, close = open+"<span>", "</span>"+close
+			case "list":
+				open, close = open+"<ul><li>", "</li></ul>"+close
+			}
+		}
+		src := open + "<b>{{ name }}</b>" + close
+		if c.Pos == "component" {
+			// a component that includes itself n levels deep, one element per level
+			src = `<template include="rec.vuego" :n="` + fmt.Sprint(n) + `"></template>`
+		}
+		files := Files{"page.vuego": src, "rec.vuego": `<div><template v-if="n > 0" include="rec.vuego" :n="n - 1"></template><b v-else>{{ name }}</b></div>`}
+		data := map[string]any{"name": "x"}
+		ctx.Eval(4)
+		_ = vuego.NewFS(files.FS()).Fill(data).RenderString(bg, &buf, src)
+		_ = vuego.NewFS(files.FS()).Load("page.vuego").Fill(data).Render(bg, &buf)
+		_ = vuego.NewVue(files.FS()).Render(&buf, "page.vuego", data)
+		_ = vuego.NewVue(files.FS()).RenderFragment(&buf, "page.vuego", data)
 	case "source":
 		src := c.Src
 		ctx.Eval(1)
@@ -369,6 +432,8 @@ func init() {
 		CPUBudget: 15,
 		Rule: fmt.Sprintf("(1) %d directive positions (+ the value as root data) x %d Go values of every kind (scalars, NaN, nil and typed nils, maps with non-string keys, structs with unexported/embedded fields, func, chan, self-referential pointer, 1000-deep nesting), each through RenderString and Load+Render; ", len(c11Positions), len(wrongValues)) +
 			fmt.Sprintf("(1b) %d registered functions of every shape (fixed, variadic, context-taking, with error / comma-ok / three / no results, array, slice, map, pointer, struct, func and interface parameters, nil entries, values that are not functions) x %d call forms (call with 0..3 arguments, pipes with and without arguments, v-if, :attr, v-for) x the same values as argument; ", len(c11Funcs), len(c11CallForms)) +
+			"(1d) engines constructed with every ordered selection of <=3 options out of {WithFS, WithFS(nil), WithComponents, WithLessProcessor, WithFuncs, WithFuncs(nil), WithProcessor} through New, NewFS(fs) and NewFS(nil), followed by a string render, a file render and a render of a missing file; " +
+			"(1c) templates of 31 nesting depths from 1 to 600 (around 16, 32, 64, 128, 256, 512) as nested divs, divs with an inline sibling per level, spans, lists and a self-including component, through 4 entry points; " +
 			"(2) all include graphs over 3 files where each file includes <=2 targets in 6 modes (direct, v-if true/false, v-for, as plain slot content, as v-slot content), the includes wrapped in an element, standing bare as the first nodes of the file, or inside a <template> root: must return, with an error iff a cycle is reachable; (3) every token string up to the bound over a 20-token alphabet as template source (string / file / Vue.Render) and as front-matter. " +
 			"oracle: the call returns - no panic (recovered per case), no fatal error or stack overflow (64 MiB stack cap, worker subprocess), no hang (CPU budget per case). non-trivial = all",
 		Bounds:      map[string]string{"quick": "graphs with <=1 edge per file in all modes plus 2 edges in {direct, vfor}; token strings of length <=3", "thorough": "graphs with <=1 edge per file in all 6 modes plus 2 edges in {direct, v-if, v-for, slot content}; token strings of length <=4"},
@@ -388,6 +453,22 @@ func init() {
 					for _, w := range wrongValues {
 						emit(&c11Case{Part: "funcs", Pos: form.Name, Src: fn, Val: w.Name})
 					}
+				}
+			}
+			ctorOpts := []string{"fs", "nilfs", "components", "less", "funcs", "nilfuncs", "proc"}
+			for _, ctor := range []string{"New", "NewFS", "NewFS-nil"} {
+				emit(&c11Case{Part: "ctor", Pos: ctor})
+				tokenStrings(ctorOpts, 3, func(tok []int) {
+					var names []string
+					for _, i := range tok {
+						names = append(names, ctorOpts[i])
+					}
+					emit(&c11Case{Part: "ctor", Pos: ctor, A: names})
+				})
+			}
+			for _, shape := range []string{"div", "mixed", "inline", "list", "component"} {
+				for _, n := range []int{1, 2, 15, 16, 17, 31, 32, 33, 50, 62, 63, 64, 65, 100, 126, 127, 128, 129, 130, 200, 254, 255, 256, 257, 258, 300, 510, 511, 512, 513, 600} {
+					emit(&c11Case{Part: "depth", Pos: shape, Val: fmt.Sprint(n)})
 				}
 			}
 			// graphs
